@@ -59,7 +59,11 @@ def make_classes(cands, string):
         def init(self, match):
             self.match = match
 
-        T = type('Scripted%d' % k, (span_token.SpanToken,), {
+        # every other set of classes is a CHAIN of subclasses (each user token type derives from the previous one and overrides
+        # precedence / parse_inner / parse_group again): the rules are about the class's own settings, wherever it inherits from
+        chain = sum(c[0] + c[1] + c[4] for c in cands) % 2 == 1
+        base = classes[-1] if (chain and classes) else span_token.SpanToken
+        T = type('Scripted%d' % k, (base,), {
             'precedence': cs[0][4], 'parse_inner': cs[0][5], 'parse_group': 1,
             'find': classmethod(find), '__init__': init})
         classes.append(T)
